@@ -224,8 +224,8 @@ def get_negativity(rho:np.ndarray, dim:tuple[int]):
         ret (float): negativity of the density matrix
     '''
     assert len(dim)==2
-    dimA = int(dim)
-    dimB = int(dim)
+    dimA = int(dim[0])
+    dimB = int(dim[1])
     assert (rho.ndim==2) and (rho.shape[0]==dimA*dimB) and (rho.shape[0]==rho.shape[1])
     assert np.abs(rho-rho.T.conj()).max() < 1e-10
     tmp0 = rho.reshape(dimA, dimB, dimA, dimB).transpose(0,3,2,1).reshape(dimA*dimB,dimA*dimB)
